@@ -181,4 +181,95 @@ theorem decode_cons (b0 b1 : UInt8) (masked : Bool) (form : Nat) (ext key body r
     rw [ht, hd, hv]
     exact hp
 
+/-! ### decode ∘ encode -/
+
+theorem b0_fields (fin rsv1 rsv2 rsv3 op : Nat)
+    (hf : fin < 2) (h1 : rsv1 < 2) (h2 : rsv2 < 2) (h3 : rsv3 < 2) (hop : op < 16) (masked : Bool) (key : Bytes) (form : Nat) (p : Bytes) :
+    mkWire (UInt8.ofNat (fin * 128 + rsv1 * 64 + rsv2 * 32 + rsv3 * 16 + op)) masked key form p =
+      { fin := fin, rsv1 := rsv1, rsv2 := rsv2, rsv3 := rsv3, opcode := op, masked := masked, key := key,
+        lenForm := form, payload := p } := by
+  have hb0 : (UInt8.ofNat (fin * 128 + rsv1 * 64 + rsv2 * 32 + rsv3 * 16 + op)).toNat
+      = fin * 128 + rsv1 * 64 + rsv2 * 32 + rsv3 * 16 + op := toNat_ofNat_lt _ (by omega)
+  simp only [mkWire, hb0]
+  have a0 : (fin * 128 + rsv1 * 64 + rsv2 * 32 + rsv3 * 16 + op) / 128 = fin := by omega
+  have a1 : (fin * 128 + rsv1 * 64 + rsv2 * 32 + rsv3 * 16 + op) / 64 % 2 = rsv1 := by omega
+  have a2 : (fin * 128 + rsv1 * 64 + rsv2 * 32 + rsv3 * 16 + op) / 32 % 2 = rsv2 := by omega
+  have a3 : (fin * 128 + rsv1 * 64 + rsv2 * 32 + rsv3 * 16 + op) / 16 % 2 = rsv3 := by omega
+  have a4 : (fin * 128 + rsv1 * 64 + rsv2 * 32 + rsv3 * 16 + op) % 16 = op := by omega
+  rw [a0, a1, a2, a3, a4]
+
+theorem decode_encode (fin rsv1 rsv2 rsv3 op : Nat) (key : Option Bytes) (form : Nat) (p rest : Bytes)
+    (hf : fin < 2) (h1 : rsv1 < 2) (h2 : rsv2 < 2) (h3 : rsv3 < 2) (hop : op < 16)
+    (hk : ∀ k, key = some k → k.length = 4)
+    (hform : (form = 7 ∧ p.length < 126) ∨ (form = 16 ∧ p.length < 65536) ∨ (form = 64 ∧ p.length < 2 ^ 64)) :
+    decode (encode fin rsv1 rsv2 rsv3 op key form p ++ rest) =
+      .frame { fin := fin, rsv1 := rsv1, rsv2 := rsv2, rsv3 := rsv3, opcode := op,
+               masked := key.isSome, key := key.getD [], lenForm := form, payload := p } rest := by
+  cases key with
+  | none =>
+    have hm : ∀ x, x < 128 → ((UInt8.ofNat (0 + x)).toNat / 128 == 1) = false := by
+      intro x hx
+      rw [toNat_ofNat_lt _ (by omega)]
+      have : (0 + x) / 128 = 0 := by omega
+      rw [this]; decide
+    rcases hform with ⟨rfl, hn⟩ | ⟨rfl, hn⟩ | ⟨rfl, hn⟩
+    · have hd := decode_cons (UInt8.ofNat (fin * 128 + rsv1 * 64 + rsv2 * 32 + rsv3 * 16 + op))
+        (UInt8.ofNat (0 + p.length)) false 7 [] [] p rest (hm _ (by omega))
+        (Or.inl ⟨rfl, by rw [toNat_ofNat_lt _ (by omega)]; omega, hn, rfl⟩) (by simp)
+      simp only [List.nil_append, Bool.false_eq_true, if_false] at hd
+      simp only [encode, Option.isSome_none, Bool.false_eq_true, if_false, if_true, List.cons_append, List.nil_append,
+        Option.getD_none]
+      rw [hd, b0_fields fin rsv1 rsv2 rsv3 op hf h1 h2 h3 hop]
+    · have hd := decode_cons (UInt8.ofNat (fin * 128 + rsv1 * 64 + rsv2 * 32 + rsv3 * 16 + op))
+        (UInt8.ofNat (0 + 126)) false 16 (beN 2 p.length) [] p rest (hm _ (by omega))
+        (Or.inr (Or.inl ⟨rfl, by decide, beN_length 2 _, unbe_be2 _ hn⟩)) (by simp)
+      simp only [List.nil_append, Bool.false_eq_true, if_false] at hd
+      have n7 : ¬ (16 = 7) := by omega
+      simp only [encode, Option.isSome_none, Bool.false_eq_true, if_false, if_true, n7, List.cons_append,
+        Option.getD_none, List.append_assoc]
+      rw [hd, b0_fields fin rsv1 rsv2 rsv3 op hf h1 h2 h3 hop]
+    · have hd := decode_cons (UInt8.ofNat (fin * 128 + rsv1 * 64 + rsv2 * 32 + rsv3 * 16 + op))
+        (UInt8.ofNat (0 + 127)) false 64 (beN 8 p.length) [] p rest (hm _ (by omega))
+        (Or.inr (Or.inr ⟨rfl, by decide, beN_length 8 _, unbe_be8 _ hn⟩)) (by simp)
+      simp only [List.nil_append, Bool.false_eq_true, if_false] at hd
+      have n7 : ¬ (64 = 7) := by omega
+      have n16 : ¬ (64 = 16) := by omega
+      simp only [encode, Option.isSome_none, Bool.false_eq_true, if_false, n7, n16, List.cons_append,
+        Option.getD_none, List.append_assoc]
+      rw [hd, b0_fields fin rsv1 rsv2 rsv3 op hf h1 h2 h3 hop]
+  | some k =>
+    have hkl := hk k rfl
+    have hul := unmask_length k p
+    have hui := unmask_invol k p hkl
+    have hm : ∀ x, x < 128 → ((UInt8.ofNat (128 + x)).toNat / 128 == 1) = true := by
+      intro x hx
+      rw [toNat_ofNat_lt _ (by omega)]
+      have : (128 + x) / 128 = 1 := by omega
+      rw [this]; decide
+    rcases hform with ⟨rfl, hn⟩ | ⟨rfl, hn⟩ | ⟨rfl, hn⟩
+    · have hd := decode_cons (UInt8.ofNat (fin * 128 + rsv1 * 64 + rsv2 * 32 + rsv3 * 16 + op))
+        (UInt8.ofNat (128 + p.length)) true 7 [] k (unmask k p) rest (hm _ (by omega))
+        (Or.inl ⟨rfl, by rw [toNat_ofNat_lt _ (by omega), hul]; omega, by rw [hul]; exact hn, rfl⟩) (by simpa using hkl)
+      simp only [List.nil_append, if_true, hui] at hd
+      simp only [encode, Option.isSome_some, if_true, List.cons_append, List.nil_append,
+        Option.getD_some, List.append_assoc]
+      rw [hd, b0_fields fin rsv1 rsv2 rsv3 op hf h1 h2 h3 hop]
+    · have hd := decode_cons (UInt8.ofNat (fin * 128 + rsv1 * 64 + rsv2 * 32 + rsv3 * 16 + op))
+        (UInt8.ofNat (128 + 126)) true 16 (beN 2 p.length) k (unmask k p) rest (hm _ (by omega))
+        (Or.inr (Or.inl ⟨rfl, by decide, beN_length 2 _, by rw [hul]; exact unbe_be2 _ hn⟩)) (by simpa using hkl)
+      simp only [if_true, hui] at hd
+      have n7 : ¬ (16 = 7) := by omega
+      simp only [encode, Option.isSome_some, if_true, if_false, n7, List.cons_append,
+        Option.getD_some, List.append_assoc]
+      rw [hd, b0_fields fin rsv1 rsv2 rsv3 op hf h1 h2 h3 hop]
+    · have hd := decode_cons (UInt8.ofNat (fin * 128 + rsv1 * 64 + rsv2 * 32 + rsv3 * 16 + op))
+        (UInt8.ofNat (128 + 127)) true 64 (beN 8 p.length) k (unmask k p) rest (hm _ (by omega))
+        (Or.inr (Or.inr ⟨rfl, by decide, beN_length 8 _, by rw [hul]; exact unbe_be8 _ hn⟩)) (by simpa using hkl)
+      simp only [if_true, hui] at hd
+      have n7 : ¬ (64 = 7) := by omega
+      have n16 : ¬ (64 = 16) := by omega
+      simp only [encode, Option.isSome_some, if_true, if_false, n7, n16, List.cons_append,
+        Option.getD_some, List.append_assoc]
+      rw [hd, b0_fields fin rsv1 rsv2 rsv3 op hf h1 h2 h3 hop]
+
 end WS.Lemmas.Frame
